@@ -121,6 +121,12 @@ def make_history(sp, rng, nops):
             if len(ax) >= 2 and rng.random() < 0.5:
                 hist.append(('E.acc', ('line_iter', (name,))))
                 hist += [('E.acc', (name, (ax[0],))), ('E.acc', (name, (ax[-1],))), ('E.acc', (name, (ax[len(ax) // 2],)))]
+    if sp.stored and rng.random() < 0.6:
+        # directed prefix on the emulator: whole-array header reads (attributes) and per-trace headers (header[]) on the same object, both orders
+        k_ = rng.choice(sp.stored)
+        tt = sorted({0, sp.ntr - 1, rng.randrange(sp.ntr)})
+        seq = [('E.acc', ('attributes', (k_,)))] + [('E.acc', ('header', (t_,))) for t_ in tt] + [('E.acc', ('attributes', (k_,)))]
+        hist += seq if rng.random() < 0.5 else seq[1:] + seq[:1] + seq[1:2]
     while len(hist) < nops:
         mode = rng.random()
         if pairs and mode > 0.93:
